@@ -69,6 +69,10 @@ func (p *parser) parseFuncCall(isTopLevel bool) Node {
 }
 
 func (p *parser) parseExpr(prec precedence) Node {
+	defer p.leaveNesting()
+	if !p.enterNesting() {
+		return nil
+	}
 	var left Node
 	switch p.cur.Type {
 	case lexer.IDENT:
@@ -82,7 +86,12 @@ func (p *parser) parseExpr(prec precedence) Node {
 	default:
 		p.unexpectedLeftTokenError()
 	}
-	for left != nil && !p.isAtExprEnd() && prec < precedences[p.cur.Type] {
+	for chain := 0; left != nil && !p.isAtExprEnd() && prec < precedences[p.cur.Type]; chain++ {
+		if chain == maxNestingDepth {
+			// each operator nests the expression so far one level deeper
+			p.appendError("nested too deeply")
+			return nil
+		}
 		tt := p.cur.Type
 		switch {
 		case isBinaryOp(tt):
